@@ -21,28 +21,14 @@
 
 enum { PH_NUM = 0, PH_SPACE, PH_PAD, PH_TOKENS, PH_DONE, PH_BAD };
 
-static _Bool mon_on;                    /* event checking active */
-static const unsigned char *mon_data;   /* the line's bytes */
-static unsigned char mon_len;
-static unsigned char mon_hi, mon_lo;
-static int mon_listo;
-static const struct expansion_map *mon_map;
-static int mon_indent_in;
-/* prefix counts: mon_cnt[k][i] = number of bytes equal to needle k in mon_data[0..i) ;
- * needles: 0 = 0xED NEXT, 1 = 0xFD UNTIL, 2 = 0xE3 FOR, 3 = 0xF5 REPEAT.  Filled by the harness. */
-static unsigned short mon_cnt[4][257];
+/* monitor state lives in models/ghost.h (GC: run constants, GL: the line, G: mutable state) */
 
-static int mon_phase;
-static unsigned mon_i;                  /* cursor into mon_data */
-static _Bool mon_q;                     /* inside a quoted string */
-static unsigned long g_lines_listed;    /* line-number events seen (one per listed line) */
-
-#define MON_OUTDENT (((mon_listo & 2) ? 2 * (int)mon_cnt[0][mon_len] : 0) + \
-                     ((mon_listo & 4) ? 2 * (int)mon_cnt[1][mon_len] : 0))
+#define MON_OUTDENT (((mon_listo & 2) ? 2 * (int)mon_c0 : 0) + \
+                     ((mon_listo & 4) ? 2 * (int)mon_c1 : 0))
 #define MON_INDENT_AFTER_OUTDENT (mon_indent_in - MON_OUTDENT)
 #define MON_INDENT_OUT (MON_INDENT_AFTER_OUTDENT + \
-                        ((mon_listo & 2) ? 2 * (int)mon_cnt[2][mon_len] : 0) + \
-                        ((mon_listo & 4) ? 2 * (int)mon_cnt[3][mon_len] : 0))
+                        ((mon_listo & 2) ? 2 * (int)mon_c2 : 0) + \
+                        ((mon_listo & 4) ? 2 * (int)mon_c3 : 0))
 #define MON_PHASE_AFTER_SPACE ((MON_INDENT_AFTER_OUTDENT > 0) ? PH_PAD : PH_TOKENS)
 #define MON_PHASE_AFTER_NUM   ((mon_listo & 1) ? PH_SPACE : MON_PHASE_AFTER_SPACE)
 
@@ -58,6 +44,32 @@ static _Bool mon_str_is(const char *s, const char *lit, unsigned n)
   for (k = 0; k <= n; ++k)
     if (s[k] != lit[k]) return 0;
   return 1;
+}
+
+/* the token at cursor i is one the specification does not list (C09): NUL byte; outside quotes an
+ * unassigned token, a crunched (fast) variable, a line-number form or extension token cut off by the
+ * end of the line, an unassigned extension code, PDP11 0xC8 as last byte. */
+#define SPEC_EXT_VALID(cl, e) ((cl) == CL_C6 ? SPEC_C6V[e] : (cl) == CL_C7 ? SPEC_C7V[e] : SPEC_C8V[e])
+#define SPEC_TOKEN_BAD_AT(i, q) \
+  (mon_data[i] == 0 || \
+   (!(q) && (SPEC_CLASS[mon_data[i]] == CL_INVALID || SPEC_CLASS[mon_data[i]] == CL_FASTVAR || \
+             (SPEC_CLASS[mon_data[i]] == CL_LINENUM && !((i) + 3 < mon_len)) || \
+             (SPEC_CLASS[mon_data[i]] == CL_PDP && !((i) + 1 < mon_len)) || \
+             ((SPEC_CLASS[mon_data[i]] == CL_C6 || SPEC_CLASS[mon_data[i]] == CL_C7 || SPEC_CLASS[mon_data[i]] == CL_C8) && \
+              (!((i) + 1 < mon_len) || !SPEC_EXT_VALID(SPEC_CLASS[mon_data[i]], mon_data[((i) + 1 < mon_len) ? (i) + 1 : (i)]))))))
+
+/* called by the stderr model for every diagnostic */
+static void mon_on_diag(void)
+{
+#ifdef VERIF_NO_LINE_LEVEL       /* L3: decode_line is replaced by its contract, so every diagnostic seen
+                                    here is a framing diagnostic of the program decoders themselves */
+  mon_reject_ok = 0;
+#else
+  if (mon_on && mon_phase == PH_TOKENS && mon_i < mon_len)
+    mon_reject_ok = SPEC_TOKEN_BAD_AT(mon_i, mon_q);
+  else
+    mon_reject_ok = 0;
+#endif
 }
 
 static void mon_advance(unsigned width)
@@ -85,6 +97,7 @@ static void mon_event_chr(int c)
     {
       __CPROVER_assert(c == '\n', "C03 listing: the line ends with exactly one newline");
       mon_phase = (c == '\n') ? PH_DONE : PH_BAD;
+      if (c == '\n') mon_indent_run = MON_INDENT_OUT;
     }
   else
     {
